@@ -944,8 +944,17 @@ func (p *partition) becomeFollower() error {
 	// Start fetching messages from the leader's log starting at the HW.
 	p.stopFollower = make(chan struct{})
 	p.srv.logger.Debugf("Replicating partition %s from leader %s", p, p.Leader)
+	// Capture these while the partition mutex is held: the goroutine below
+	// starts later and must not read fields a subsequent leader change is
+	// writing (it could otherwise fetch with the next leader's epoch but keep
+	// running after that change closed a different stop channel).
+	var (
+		leader = p.Leader
+		epoch  = p.LeaderEpoch
+		stop   = p.stopFollower
+	)
 	p.srv.startGoroutine(func() {
-		p.replicationRequestLoop(p.Leader, p.LeaderEpoch, p.stopFollower)
+		p.replicationRequestLoop(leader, epoch, stop)
 	})
 
 	p.isFollowing = true
